@@ -247,6 +247,7 @@ class Model:
         # child it is linked to): the property says such a fiber is :alive and refuses resume/cancel
         self.hazard_at = None
         self.hazard2_at = None
+        self.unspecified_at = None    # first event after a propagate from a :dead fiber (unspecified)
         self.dyn_set = set()
 
     # ---- bookkeeping
@@ -420,6 +421,9 @@ class Model:
                 raise Sig(ERROR, S("cannot propagate from fiber with status :%s" % STATUS[st]))
             if st == OK or st in TERMINAL:
                 self.probe("propagate_finished")
+                if st == OK and self.unspecified_at is None:
+                    self.unspecified_at = len(self.events)
+                    self.probe("propagate_from_dead_fiber")
                 if st == OK and f.blocks and f.blocks[-1].kind == "ccall" and self.hazard2_at is None:
                     # "return" out of a callback frame that C code is waiting on
                     self.hazard2_at = len(self.events)
